@@ -33,6 +33,51 @@ Theorem c09_no_chain_unchanged : forall c s r,
   i_tls r && i_chain r = false -> fst (inject c s r) = s /\ snd (inject c s r) <> 200.
 Proof. exact no_chain_unchanged. Qed.
 
+(* Every injection that is not answered 200 — whatever the reason: no TLS, no verified chain, no
+   field, a wrong passphrase, the right passphrase on a main file that does not parse / holds a key of
+   the wrong type / cannot produce its CA certificates, an Ed25519 file under another passphrase or
+   unusable in any of these ways, an already unsealed server — leaves the whole state exactly as it
+   was (quantified over every configuration record, i.e. every combination of per-file outcomes). *)
+Theorem c09_refused_unchanged : forall c s r, snd (inject c s r) <> 200 -> fst (inject c s r) = s.
+Proof. exact refused_unchanged. Qed.
+
+(* ... in particular a refused injection leaves a sealed server sealed, not ready, with no ready
+   message and an unchanged published-key list *)
+Theorem c09_refused_still_sealed : forall c s r,
+  signer s = None -> snd (inject c s r) <> 200 ->
+  signer (fst (inject c s r)) = None /\ readyz (fst (inject c s r)) = 503 /\
+  ready_sent (fst (inject c s r)) = ready_sent s /\ pubkeys (fst (inject c s r)) = pubkeys s.
+Proof. exact refused_still_sealed. Qed.
+
+(* exactly which injections a sealed server answers with 200 *)
+Theorem c09_accepted_iff : forall c s r, signer s = None ->
+  (snd (inject c s r) = 200 <->
+   i_tls r = true /\ i_chain r = true /\ exists p, i_field r = Some p /\ all_good c p = true).
+Proof. exact accepted_iff. Qed.
+
+(* The auto-unseal path (unseal.go tryAwsUnseal: the secret stored in the cloud secret manager is
+   handed to unsealCA directly, there is no TLS / client-certificate gate on that path): an attempt that
+   returns an error leaves the state as it was, and the signer appears only if the secret decrypts
+   every configured key file and every file loads.  (Model-level: the secret manager is not reachable
+   offline, so this path has no correspondence run of its own; unsealCA itself is the function the
+   injection sequences exercise.) *)
+Theorem c09_auto_unseal_refused_unchanged : forall c s p,
+  snd (unseal_ca c s p) = false -> fst (unseal_ca c s p) = s.
+Proof. exact unseal_ca_error_unchanged. Qed.
+
+Theorem c09_auto_unseal_only_right_pass : forall c s p,
+  signer s = None -> signer (fst (unseal_ca c s p)) <> None ->
+  snd (unseal_ca c s p) = true /\ all_good c p = true /\ signer (fst (unseal_ca c s p)) = Some (main_key c).
+Proof. exact auto_unseal_only_right_pass. Qed.
+
+(* Before the repair (loadSignersFromPemData assigned the Ed25519 signer and its CA certificate
+   before looking at the main key) a refused injection changed the state: right passphrase, good
+   Ed25519 file, main file holding a key of the wrong type -> 400, yet Ed25519Signer set and a CA
+   certificate appended.  The repaired model leaves the state as it was. *)
+Theorem c09_old_refused_changes_state_refuted :
+  exists c s r, snd (inject_old c s r) <> 200 /\ fst (inject_old c s r) <> s /\ fst (inject c s r) = s.
+Proof. exact old_refused_changes_state_refuted. Qed.
+
 (* Repeated injections, any sequence: at most one is answered 200, exactly one iff the server ends unsealed;
    one ready message iff unsealed. *)
 Theorem c09_once_sequential : forall c l,
@@ -80,8 +125,20 @@ Proof. exact published. Qed.
 
 (* ------------------------------------------------------------------ non-vacuity *)
 Definition ex_cfg : cfg :=
-  {| right_pass := [112; 119]; main_key := 1; main_ok := true; role_ok := true;
-     ed_file := Some ([112; 119], 2, true); extra_pubkeys := [9] |}.
+  {| right_pass := [112; 119]; main_key := 1; main_res := FGood; role_ok := true;
+     ed_file := Some ([112; 119], 2, FGood); extra_pubkeys := [9] |}.
+
+(* non-vacuity of c09_refused_unchanged: each way a key file can be unusable is refused with 400 and
+   changes nothing *)
+Example c09_refused_examples :
+  let r := {| i_tls := true; i_chain := true; i_field := Some [112; 119] |} in
+  let bad m e := {| right_pass := [112; 119]; main_key := 1; main_res := m; role_ok := true;
+                    ed_file := Some ([112; 119], 2, e); extra_pubkeys := [9] |} in
+  forallb (fun c => (snd (inject c (sealed_init c) r) =? 400) && negb (is_some (signer (fst (inject c (sealed_init c) r))))
+                    && negb (is_some (ed (fst (inject c (sealed_init c) r)))))
+          [bad FUnparsable FGood; bad FWrongType FGood; bad FCaFails FGood;
+           bad FGood FUnparsable; bad FGood FWrongType; bad FGood FCaFails; bad FWrongType FWrongType] = true.
+Proof. vm_compute. reflexivity. Qed.
 
 (* the right passphrase with a verified chain does unseal, and a handler then signs with published keys *)
 Example c09_right_pass_unseals :
